@@ -214,7 +214,8 @@ Definition file_api (f : frontcfg) (r : aresult) : status * option bytes :=
       | OutOfFuel => (SRaise EOther, None)
       end
   | AScanError _ _ | AParseError _ => (SReturn (-1) false, None)
-  | AExc ENode _ | AExc ERuntime _ => (SReturn (-1) false, None)
+  | AExc ENode _ | AExc ERuntime _ | AExc ERecursion _ => (SReturn (-1) false, None)
+        (* NodeError, and `except RuntimeError` — RecursionError is a RuntimeError — : logged, -1 *)
   | AExc k _ => (SRaise k, None)
   | AFuel => (SRaise EOther, None)
   end.
